@@ -1097,6 +1097,41 @@ def _nas_cases(rnd, table, shapes, tier):
                         rnd.shuffle(perm)
                 cases.append({"id": idn, "kind": "msg", "name": name, "hdr": hdr, "mand": mand, "opt": opt, "perm": perm})
                 idn += 1
+    # dense sweep of one variable-length IE across the one-octet boundary (246..261 octets; up to 255 for one-octet lengths) with every other
+    # optional IE of the message present: a length or a remaining-octets count kept in 8 bits shows here
+    for name in sorted(table):
+        t = table[name]
+        sh = byname.get(name)
+        so = (sh or {}).get("opt") or []
+        oshapes = so if len(so) == len(t["opt"]) else [None] * len(t["opt"])
+        k = len(t["opt"])
+        iso_idx = [i for i in range(k) if (name, t["opt"][i][0]) in isolated]
+        sm = (sh or {}).get("mand") or []
+        mshapes = sm if len(sm) == len(t["mand"]) else [None] * len(t["mand"])
+        for i in range(k):
+            row = t["opt"][i]
+            if row[1] not in ("TLVE", "LVE", "TLV", "LV") or i in iso_idx:
+                continue
+            if oshapes[i] and oshapes[i]["kind"] in ("lv-array", "lve-array", "octet"):
+                continue
+            top = 262 if row[1] in ("TLVE", "LVE") else 256
+            for L in range(246, top):
+                hdr = [0] if t["epd"] == 126 else [rnd.randrange(256), rnd.randrange(256)]
+                mand = [[rnd.randrange(256) for _ in range(val_len(r2[1], r2[2], s2, 1))] for (r2, s2) in zip(t["mand"], mshapes)]
+                opt = []
+                for j in range(k):
+                    if j in iso_idx:
+                        continue
+                    rj = t["opt"][j]
+                    if j == i:
+                        v = [rnd.randrange(256) for _ in range(L)]
+                    elif rj[1] == "TV1":
+                        v = [rnd.randrange(16)]
+                    else:
+                        v = [rnd.randrange(256) for _ in range(val_len(rj[1], rj[2], oshapes[j], 1 + j, rj[0]))]
+                    opt.append({"iei": rj[0], "v": v})
+                cases.append({"id": idn, "kind": "msg", "name": name, "hdr": hdr, "mand": mand, "opt": opt, "perm": list(range(1, len(opt) + 1))})
+                idn += 1
     known5gmm = {t["mt"] for t in table.values() if t["epd"] == 126}
     known5gsm = {t["mt"] for t in table.values() if t["epd"] == 46}
     for mt in range(256):
